@@ -53,7 +53,7 @@ def advanceLenient : Nat → Model.IEnv → Model.IEnv
     | .ok e' => advanceLenient n e'
     | .error _ => e
 
-def cmdSession (spec : Bool) (verbose : Bool) (a : List String) : String :=
+def cmdSessionG (lenient : Bool) (spec : Bool) (verbose : Bool) (a : List String) : String :=
   match parseSession a with
   | none => "bad-op"
   | some (c, succ, cmds) =>
@@ -78,8 +78,14 @@ def cmdSession (spec : Bool) (verbose : Bool) (a : List String) : String :=
               net := net + 1
               e := if spec then (advance net e0).getD e' else e'
             | .error _ =>
-              failed := true
               marks := marks.push '!'
+              if lenient then
+                -- SESSIONF: the failed step leaves the session as it was; the walk goes on
+                let fs := fullState e
+                hh := fnvStr hh (hex16 (fnvStr fnvInit fs))
+                if verbose then vt := vt ++ " {" ++ fs ++ "}"
+              else
+                failed := true
               continue
         else
           if spec then
@@ -100,5 +106,7 @@ def cmdSession (spec : Bool) (verbose : Bool) (a : List String) : String :=
       let st := if failed then "-" else fullState e
       let cont := if failed then "" else contField e
       return s!"marks={marks} hs={hex16 hh} state={st}" ++ cont ++ (if verbose then " trace=" ++ vt else "")
+
+def cmdSession (spec : Bool) (verbose : Bool) (a : List String) : String := cmdSessionG false spec verbose a
 
 end Driver
